@@ -145,7 +145,7 @@ func pkgName(dir string) (string, error) {
 }
 
 // buildOverlay returns overlay (virtual repo path -> content) for the given package dirs.
-func buildOverlay(pkgs []string, workDir string) (map[string][]byte, map[string]string, error) {
+func buildOverlay(pkgs []string, workDir string, exclude map[string]bool) (map[string][]byte, map[string]string, error) {
 	ov := map[string][]byte{}
 	files := map[string]string{} // virtual -> real file on disk (for go test -overlay)
 	for _, p := range pkgs {
@@ -166,6 +166,9 @@ func buildOverlay(pkgs []string, workDir string) (map[string][]byte, map[string]
 				return nil, nil, err
 			}
 			virt := filepath.Join(rdir, e.Name())
+			if exclude[virt] {
+				continue
+			}
 			ov[virt] = src
 			files[virt] = filepath.Join(hdir, e.Name())
 			if strings.HasSuffix(e.Name(), "_test.go") {
@@ -256,38 +259,74 @@ func cmdCheck(args []string) int {
 		pkgs = append(pkgs, p)
 	}
 	sort.Strings(pkgs)
-	ov, files, err := buildOverlay(pkgs, workDir)
-	if err != nil {
-		fmt.Fprintln(os.Stderr, "overlay:", err)
-		return 2
-	}
 	var patterns []string
 	for _, p := range pkgs {
 		patterns = append(patterns, modPath+"/"+p)
 	}
 	tLoad := time.Now()
-	cfg := &packages.Config{
-		Mode:       packages.LoadAllSyntax,
-		Dir:        repoDir,
-		Env:        goEnv(),
-		Overlay:    ov,
-		BuildFlags: []string{"-tags=verif"},
-	}
-	initial, err := packages.Load(cfg, patterns...)
-	if err != nil {
-		fmt.Fprintln(os.Stderr, "load:", err)
-		return 2
-	}
-	nerr := 0
-	packages.Visit(initial, nil, func(p *packages.Package) {
-		for _, e := range p.Errors {
-			fmt.Fprintln(os.Stderr, "load error:", e)
-			nerr++
+	// A harness file of ANOTHER property in the same package may stop type-checking when the
+	// tree changes (it names an internal function whose signature changed). Such files are
+	// left out - as long as they define none of the entry points this run needs - and the
+	// load is repeated, so that one broken harness does not silence the others.
+	exclude := map[string]bool{}
+	var ov map[string][]byte
+	var files map[string]string
+	var initial []*packages.Package
+	for round := 0; ; round++ {
+		var err error
+		ov, files, err = buildOverlay(pkgs, workDir, exclude)
+		if err != nil {
+			fmt.Fprintln(os.Stderr, "overlay:", err)
+			return 2
 		}
-	})
-	if nerr > 0 {
-		fmt.Printf("INCONCLUSIVE property=%s: the tree (with harnesses) does not type-check\n", *prop)
-		return 2
+		cfg := &packages.Config{
+			Mode:       packages.LoadAllSyntax,
+			Dir:        repoDir,
+			Env:        goEnv(),
+			Overlay:    ov,
+			BuildFlags: []string{"-tags=verif"},
+		}
+		initial, err = packages.Load(cfg, patterns...)
+		if err != nil {
+			fmt.Fprintln(os.Stderr, "load:", err)
+			return 2
+		}
+		var errs []packages.Error
+		packages.Visit(initial, nil, func(p *packages.Package) { errs = append(errs, p.Errors...) })
+		if len(errs) == 0 {
+			break
+		}
+		dropped := false
+		if round < 4 {
+			for _, e := range errs {
+				file := e.Pos
+				if i := strings.Index(file, ":"); i > 0 {
+					file = file[:i]
+				}
+				src, isHarness := ov[file]
+				if !isHarness || strings.HasSuffix(file, "zz_verif_api.go") || exclude[file] {
+					continue
+				}
+				needed := false
+				for _, h := range hs {
+					if strings.Contains(string(src), "func "+h.Entry+"(") {
+						needed = true
+					}
+				}
+				if !needed {
+					exclude[file] = true
+					dropped = true
+					fmt.Printf("note: harness file %s no longer type-checks against the tree and is left out (it defines no entry point of this check): %s\n", filepath.Base(file), e.Msg)
+				}
+			}
+		}
+		if !dropped {
+			for _, e := range errs {
+				fmt.Fprintln(os.Stderr, "load error:", e)
+			}
+			fmt.Printf("INCONCLUSIVE property=%s: the tree (with harnesses) does not type-check\n", *prop)
+			return 2
+		}
 	}
 	prog, ssaPkgs := ssautil.AllPackages(initial, ssa.InstantiateGenerics|ssa.SanityCheckFunctions&0)
 	prog.Build()
